@@ -948,8 +948,11 @@ class _GenerateRenderMethod:
         pass
 
     def visitBlockTag(self, node):
+        # a buffered block (this one, or the most-derived one that
+        # replaces it) returns its content instead of writing it;
+        # any other block returns ''
         if node.is_anonymous:
-            self.printer.writeline("%s()" % node.funcname)
+            self.printer.writeline("__M_writer(%s() or '')" % node.funcname)
         else:
             nameargs = node.get_argument_expressions(as_call=True)
             nameargs += ["**pageargs"]
@@ -958,7 +961,8 @@ class _GenerateRenderMethod:
                 "not hasattr(context._data['parent'], '%s'):" % node.funcname
             )
             self.printer.writeline(
-                "context['self'].%s(%s)" % (node.funcname, ",".join(nameargs))
+                "__M_writer(context['self'].%s(%s) or '')"
+                % (node.funcname, ",".join(nameargs))
             )
             self.printer.writeline("\n")
 
